@@ -507,10 +507,13 @@ where
                 || (0, W::default(), None, f32::INFINITY),
                 |(count0, weight0, nearest_idx0, nearest_distance0),
                  (count1, weight1, nearest_idx1, nearest_distance1)| {
-                    let (nearest_idx, nearest_distance) = if nearest_distance0 < nearest_distance1 {
-                        (nearest_idx0, nearest_distance0)
-                    } else {
+                    // Like the fold above, keep the first of several nearest
+                    // points, so that the pivot does not depend on where the
+                    // blocks end.
+                    let (nearest_idx, nearest_distance) = if nearest_distance1 < nearest_distance0 {
                         (nearest_idx1, nearest_distance1)
+                    } else {
+                        (nearest_idx0, nearest_distance0)
                     };
                     (
                         count0 + count1,
